@@ -102,19 +102,31 @@ func isLet(stmt string) bool {
 }
 
 // model computes the expectation with the library (runs in a child process).
+// compileNoPanic: a statement on which the library panics counts as a failed
+// statement (the panic itself is C12's subject); the tool must still go on
+// with the statements after it.
+func compileNoPanic(src string) (sql string, err error) {
+	defer func() {
+		if p := recover(); p != nil {
+			sql, err = "", fmt.Errorf("panic: %v", p)
+		}
+	}()
+	return pql.Compile(src)
+}
+
 func model(s *Script) Expect {
 	var e Expect
 	prelude := ""
 	for _, st := range s.Stmts {
 		if isLet(st) {
-			if _, err := pql.Compile(prelude + st + ";\nModelDummyTable"); err != nil {
+			if _, err := compileNoPanic(prelude + st + ";\nModelDummyTable"); err != nil {
 				e.Failures++
 			} else {
 				prelude += st + ";\n"
 			}
 			continue
 		}
-		sql, err := pql.Compile(prelude + st)
+		sql, err := compileNoPanic(prelude + st)
 		if err != nil {
 			e.Failures++
 			continue
@@ -149,7 +161,10 @@ var queries = []string{"T | where a == x | take lim", "T | count", "T | where s 
 	"let_events | count", "let2 | take 1", "letters | where a == x", "Let | count", "`let` | take lim", "let_ | project a", "lets\n| count",
 	// quoted names and strings that end in a backslash right before the semicolon
 	"T | project `a\\`", "`t\\` | count", "T | where s == 'a\\\\'", "T | where s == \"q\\\\\" and `b\\` > x", "T | extend `c\\\\` = 'd\\\\'"}
-var invalid = []string{"T | where (", "T | bogus", "!", "T | take 1.5", "T | where 'unterminated\n", "T U", "T | where a ==", "| count", "T | join (U) on"}
+var invalid = []string{"T | where (", "T | bogus", "!", "T | take 1.5", "T | where 'unterminated\n", "T U", "T | where a ==", "| count", "T | join (U) on",
+	"T | take 1e", "T | where a > 2.5e-", "T | where not()", "let n = tolower()", "T | where iff(a)", "T | extend x = 0x", "T | where a -- b",
+	// a byte order mark or another unrecognisable character at the start of a statement or of one of its lines
+	"\ufeffT | count", "T\n\ufeff| count", "\ufefflet bom = 1", "T | where a == 1\n\ufeff", "\u00a0T | count", "T\n\x00| take 1"}
 var seps = []string{"; ", ";\n", ";\n\n// a comment; with a semicolon\n", " ;\n", ";\r\n", ";\n   \n", "; // trailing comment\n", ";\t",
 	" // comment before the semicolon\n;\n", "\n;\n", "\n\n  ;  ", " //c\n\n;", "\t// x ; y\n ;\n"}
 
